@@ -7,6 +7,7 @@
   skip-one-blank-after-comma dialect).  Helper lemmas: `Jawk/Lemmas/CsvRoundTrip.lean`.
 -/
 import Jawk.Lemmas.CsvRoundTrip
+import Jawk.Props.Tables
 namespace Jawk.C15
 open Jawk CsvRT
 
